@@ -1,6 +1,7 @@
 import SwcVerif.Props.C07
 import SwcVerif.Props.C07Cat
 import SwcVerif.Props.C07Gen
+import SwcVerif.Props.C07CatGen
 #print axioms C07.rootPath_spec
 #print axioms C07.redirect_pids
 #print axioms C07.redirect_edges
@@ -26,3 +27,15 @@ import SwcVerif.Props.C07Gen
 #print axioms Relabel.isTreeTable_map
 #print axioms C07.sorted_wf_gen
 #print axioms C07.cat_merged_sorted
+#print axioms RefineCat.delete_single
+#print axioms RefineCat.for1_loop
+#print axioms RefineCat.for2_loop
+#print axioms RefineCat.sortTree6_refines
+#print axioms RefineCat.cat_core_root
+#print axioms RefineCat.cat_redirected
+#print axioms RefineCat.cat_core
+#print axioms RefineCat.cat_refines
+#print axioms C07.catPre_shape
+#print axioms C07.generated_cat_eq_model
+#print axioms C07.generated_cat_separate_sorted
+#print axioms C07.generated_cat_merged_sorted
